@@ -183,6 +183,37 @@ func genCases(c *core.Ctx, emit func(ccase)) {
 		}
 	}
 
+	// E2. comma-separated lists: every order of (valid | invalid | bare) items up to three items, so that a
+	// check that holds for one item but is skipped for another (first / middle / last) yields a failing input
+	listItems := map[string][]string{
+		propBG:   {`url(a)`, `url("b")`, `url('c')`, `url(/a.png)`, `url(javascript:x)`, `url(a"b)`, `url("a")b")`},
+		propFont: {`"a"`, `serif`, `Times New Roman`, `"b;c"`, `"a\"`, `"a`, `a"`},
+	}
+	bare := []string{`/*`, `*/`, `;`, `}`, `{`, `//evil.example.com/x.png`, `javascript:x`, `a(b)`, `\`, `"`, `'`, `x`, ``, `(`, `)`, `expression(1)`, `url(`, `@import x`, `a;b:c`, `]`, `/`, `*`}
+	for _, p := range []string{propBG, propFont} {
+		pool := append(append([]string{}, listItems[p]...), bare...)
+		seps := []string{",", ", ", " ,\n"}
+		for _, a := range pool {
+			add(p, a, "lists")
+		}
+		for _, sep := range seps { // shorter lists first, so the first failure is minimal
+			for _, a := range pool {
+				for _, b := range pool {
+					add(p, a+sep+b, "lists")
+				}
+			}
+		}
+		for _, sep := range seps {
+			for _, a := range pool {
+				for _, b := range pool {
+					for _, d := range pool {
+						add(p, a+sep+b+sep+d, "lists")
+					}
+				}
+			}
+		}
+	}
+
 	// F. random values: alphabet-weighted bytes, and mutations of accepted values
 	nRand := c.N(60000, 1500000)
 	r := c.Rng
@@ -298,7 +329,7 @@ type result struct {
 }
 
 func Run(c *core.Ctx) {
-	c.Rule = "safehtml.SanitizeCSS on (property class x value): every value over the 21-symbol CSS-adversarial alphabet up to the tier's length per sanitiser class, url(...)/quoted-name shapes with an exhaustive inside, white-space-rune wrappers, every alphabet/extra symbol spliced at every position of accepted values, scheme variants inside url(), hand-written vectors x property-name variants, random; distinct non-trivial = distinct (sanitiser class, value) with a structural byte (one of ; { } ( ) quote backslash / * < ,) in the value; the same cases, sampled, through templ.SanitizeCSS, a rendered <style> element, and runtime.SanitizeStyleAttributeValues in every value form"
+	c.Rule = "safehtml.SanitizeCSS on (property class x value): every value over the 21-symbol CSS-adversarial alphabet up to the tier's length per sanitiser class, url(...)/quoted-name shapes with an exhaustive inside, white-space-rune wrappers, every alphabet/extra symbol spliced at every position of accepted values, scheme variants inside url(), hand-written vectors x property-name variants, comma-separated lists of valid/invalid/bare items in every order up to three items, random; distinct non-trivial = distinct (sanitiser class, value) with a structural byte (one of ; { } ( ) quote backslash / * < ,) in the value; the same cases, sampled, through templ.SanitizeCSS[T] for five value types, a rendered <style> element, and runtime.SanitizeStyleAttributeValues in every value form"
 	c.Trusted = append(c.Trusted,
 		"specification spec/CssScan.v (CSS Syntax 3 scanner: confined, urls_of, decl_list) and spec/Whatwg.v (browser scheme extraction)",
 		"extraction: ExtrOcamlBasic only; ocaml/driver.ml (hex line protocol)",
